@@ -94,6 +94,16 @@ def gen_knap(rng):
         # capacity 0.01 or 0.1, items a hair (below 1e-9) over half of it: two of them do not fit together
         cap = rng.choice([10 ** 8, 10 ** 9])
         return {"values": [rng.randint(1, 9) for _ in range(n)], "weights": [cap // 2 + rng.randint(0, 4) for _ in range(n)], "capacity": cap, "scale": 10 ** 10}
+    if k < 0.16 and k >= 0.1:
+        # four-decimal weights, one valuable item a hair (under 0.001) over the capacity: the scaled DP takes it, the exact re-check
+        # rejects that and the greedy fallback has to produce the answer
+        n = rng.randint(2, 5)
+        cap = rng.randint(10000, 90000)
+        weights = [cap + rng.randint(1, 9)] + [rng.randint(cap // 4, cap) for _ in range(n - 1)]
+        values = [rng.randint(6, 9)] + [rng.randint(1, 6) for _ in range(n - 1)]
+        order = list(range(n))
+        rng.shuffle(order)
+        return {"values": [values[i] for i in order], "weights": [weights[i] for i in order], "capacity": cap, "scale": 10 ** 4}
     if k < 0.1:
         # integer values beyond 2^53 that differ in their low bits; equal weights, so the best selection is the top few
         n = rng.randint(2, 7)
